@@ -36,6 +36,7 @@ TNext == \/ (Ev("RESET") /\ Reset)
          \/ (Ev("released") /\ Released(Trace[l].f))
          \/ (Ev("shift") /\ Shift(Trace[l].f))
          \/ (Ev("delbegin") /\ DelBegin(Trace[l].f))
+         \/ (Ev("delend") /\ DelEnd(Trace[l].f))
          \/ (Ev("stopbegin") /\ StopBegin)
          \/ (Ev("stopend") /\ StopEnd)
          \/ (Ev("crash") /\ Crash)
